@@ -198,6 +198,33 @@ fn table_of(rr: &sqlgrep::execution::ResultRow) -> Table {
 /// Non-aggregate or aggregate statement, batch semantics through the public ExecutionEngine API the way
 /// FileExecutor drives it: per line with `execution_config()`, then (aggregate) one result request.
 /// Returns all emitted rows (non-aggregate) or the final table (aggregate). LIMIT is honoured like FileExecutor does.
+/// like run_batch for an aggregate statement, but a result is also requested (and dropped) after each of the given
+/// numbers of lines: update-only lines, a result, more update-only lines, ..., the final result
+pub fn run_batch_with_results(tables: &Tables, stmt: &Statement, lines: &[&str], result_after: &[usize]) -> Outcome<Table> {
+    let r = catch(|| -> Result<Table, String> {
+        let mut engine = ExecutionEngine::new(tables, stmt);
+        engine.execute_joined_table(Arc::new(AtomicBool::new(true))).map_err(|e| format!("{}", e))?;
+        let config = engine.execution_config();
+        let mut out = Table { columns: vec![], rows: vec![] };
+        for (i, l) in lines.iter().enumerate() {
+            engine.execute((*l).to_string(), &config).map_err(|e| format!("{}", e))?;
+            if result_after.contains(&(i + 1)) {
+                engine.execute(String::new(), &ExecutionConfig::aggregate_result()).map_err(|e| format!("{}", e))?;
+            }
+        }
+        let o = engine.execute(String::new(), &ExecutionConfig::aggregate_result()).map_err(|e| format!("{}", e))?;
+        if let Some(rr) = o.result_row {
+            out = table_of(&rr);
+        }
+        Ok(out)
+    });
+    match r {
+        Ok(Ok(t)) => Outcome::Ok(t),
+        Ok(Err(e)) => Outcome::Err(e),
+        Err(p) => Outcome::Panic(p),
+    }
+}
+
 pub fn run_batch(tables: &Tables, stmt: &Statement, lines: &[&str]) -> Outcome<Table> {
     let r = catch(|| -> Result<Table, String> {
         let mut engine = ExecutionEngine::new(tables, stmt);
